@@ -55,8 +55,15 @@ type itr struct {
 	usesEff   map[string]bool     // translated functions that thread the hidden state `ext`
 	curEff    bool                // the function being translated threads `ext`
 	pureFn    map[string]string   // package-level functions translated elsewhere as pure Lean functions
-	effInout  map[string][]int    // effectful externs: argument positions passed by pointer and written by the callee
-	aliasCall map[string]string   // "T.method" of a translated struct that returns &recv.field -> field
+	reslice   map[string]bool     // functions in which s[:hi] may extend into the hidden capacity
+	curFn     string
+	shadow    map[string]bool
+	joinIf    map[string]bool   // functions whose non-leaving if statements are joined
+	ptrOption bool              // *ID and *Mask are optional values (event code)
+	effIface  map[string]string // interface methods that act on the hidden state -> extern
+	nilChecks map[string]bool   // functions in which a member access through a nil token pointer panics
+	effInout  map[string][]int  // effectful externs: argument positions passed by pointer and written by the callee
+	aliasCall map[string]string // "T.method" of a translated struct that returns &recv.field -> field
 }
 
 // stateful: an extern that reads an object outside the module; inside a function that threads the hidden
@@ -64,6 +71,28 @@ type itr struct {
 func (t *itr) stateful(ext string) bool {
 	return strings.HasPrefix(t.extOwner[ext], "tok.")
 }
+
+// tokenOrSelf: is tp a pointer to the struct whose method is being translated (the receiver handed to a callback)?
+func (t *itr) tokenOrSelf(tp types.Type) (string, bool) {
+	if p, ok := tp.(*types.Pointer); ok {
+		if n, ok := p.Elem().(*types.Named); ok && n.Obj().Name() == "World" {
+			return "World", true
+		}
+	}
+	return "", false
+}
+
+// derefCheck: a member access through a nil pointer to an object outside the module panics
+func (t *itr) derefCheck(recvT types.Type, recv string, pre *[]string) {
+	if !t.nilChecks[t.curFn] {
+		return
+	}
+	if _, ok := recvT.(*types.Pointer); ok {
+		*pre = append(*pre, fmt.Sprintf("let _ ← %s", recv))
+	}
+}
+
+func (t *itr) usesEffExt(name string) bool { _, ok := t.effExt[name]; return ok }
 
 // tokCall renders the application of a token extern
 func (t *itr) tokCall(ext string, args []string) string {
@@ -171,6 +200,8 @@ func (t *itr) leanType(tp types.Type) string {
 			return "Int"
 		case types.Bool, types.UntypedBool:
 			return "Bool"
+		case types.UnsafePointer:
+			return "GoAny" // an address outside the module: nil or a token
 		}
 	case *types.TypeParam:
 		if numericParam(u) {
@@ -194,6 +225,9 @@ func (t *itr) leanType(tp types.Type) string {
 			return "Nat" // an object identified by a token; only pointers to it occur
 		}
 		if t.structs[n] {
+			if t.shadow[n] {
+				n = "_root_." + t.ns + "." + n // a field of that name declared earlier in the structure being emitted shadows the type
+			}
 			if st, ok := u.Underlying().(*types.Struct); ok {
 				for i := 0; i < st.NumFields(); i++ {
 					if st.Field(i).Name() == n {
@@ -226,6 +260,9 @@ func (t *itr) leanType(tp types.Type) string {
 	case *types.Pointer:
 		if n, ok := u.Elem().(*types.Named); ok && t.tokens[n.Obj().Name()] {
 			return "Option Nat" // nil or a pointer to an object outside the module
+		}
+		if n, ok := u.Elem().(*types.Named); ok && (n.Obj().Name() == "ID" || n.Obj().Name() == "Mask") && t.ptrOption {
+			return "Option (" + t.leanType(u.Elem()) + ")" // *ID / *Mask: nil or a value
 		}
 		if _, ok := u.Elem().(*types.TypeParam); ok && !numericParam(u.Elem()) {
 			return "Option " + u.Elem().(*types.TypeParam).Obj().Name() // *T: nil or an element
@@ -353,7 +390,9 @@ func (t *itr) expr(e ast.Expr, pre *[]string) string {
 		}
 		if tn, ok := t.tokenOf(t.typeOf(x.X)); ok {
 			if ext, ok := t.tokExt[tn+"."+x.Sel.Name]; ok {
-				return t.tokCall(ext, []string{t.expr(x.X, pre)})
+				rv := t.expr(x.X, pre)
+				t.derefCheck(t.typeOf(x.X), rv, pre)
+				return t.tokCall(ext, []string{rv})
 			}
 			return t.fail("member %s of an object outside the module", tn+"."+x.Sel.Name)
 		}
@@ -400,7 +439,53 @@ func (t *itr) expr(e ast.Expr, pre *[]string) string {
 				}
 				return "(!(GoMap.isNil " + t.expr(x.X, pre) + "))"
 			}
+			if _, isPtr := t.typeOf(x.X).(*types.Pointer); isPtr && strings.HasPrefix(t.leanType(t.typeOf(x.X)), "Option ") {
+				if x.Op == token.EQL {
+					return "(" + t.expr(x.X, pre) + ").isNone"
+				}
+				return "(" + t.expr(x.X, pre) + ").isSome"
+			}
 			return t.fail("comparison of a non-interface value with nil")
+		}
+		if (x.Op == token.LAND || x.Op == token.LOR) && t.nilChecks[t.curFn] {
+			// Go evaluates the right operand only when the left one does not decide: what the right operand
+			// needs evaluated first (index reads, nil checks) stays behind the left operand
+			a := t.expr(x.X, pre)
+			rpre := []string{}
+			b := t.expr(x.Y, &rpre)
+			if len(rpre) > 0 {
+				v := t.tmp("b")
+				// state the right operand changes comes back out of the branch
+				outs := []string{}
+				for _, sv := range []string{t.recv, "ext"} {
+					for _, l := range rpre {
+						if sv != "" && (strings.HasPrefix(l, "let "+sv+" :=") || strings.HasPrefix(l, "let (ext,") && sv == "ext") {
+							outs = append(outs, sv)
+							break
+						}
+					}
+				}
+				res, skip, bind := paren(b), "false", v
+				if x.Op == token.LOR {
+					skip = "true"
+				}
+				if len(outs) > 0 {
+					res = "(" + b + ", " + strings.Join(outs, ", ") + ")"
+					skip = "(" + skip + ", " + strings.Join(outs, ", ") + ")"
+					bind = "(" + v + ", " + strings.Join(outs, ", ") + ")"
+				}
+				body := strings.Join(append(rpre, "pure "+res), "; ")
+				if x.Op == token.LAND {
+					*pre = append(*pre, fmt.Sprintf("let %s ← (if %s then (do %s) else pure %s)", bind, a, body, skip))
+				} else {
+					*pre = append(*pre, fmt.Sprintf("let %s ← (if %s then pure %s else (do %s))", bind, a, skip, body))
+				}
+				return v
+			}
+			if x.Op == token.LAND {
+				return fmt.Sprintf("(%s && %s)", a, b)
+			}
+			return fmt.Sprintf("(%s || %s)", a, b)
 		}
 		a, b := t.expr(x.X, pre), t.expr(x.Y, pre)
 		tp := t.typeOf(x.X)
@@ -508,6 +593,8 @@ func (t *itr) expr(e ast.Expr, pre *[]string) string {
 				seen[n] = true
 				if id, ok := kv.Value.(*ast.Ident); ok && id.Name == "nil" {
 					fields = append(fields, fmt.Sprintf("%s := default", n)) // nil slice / map / interface / pointer
+				} else if u, ok := kv.Value.(*ast.UnaryExpr); ok && u.Op == token.AND && strings.HasPrefix(t.leanType(t.typeOf(kv.Value)), "Option (") {
+					fields = append(fields, fmt.Sprintf("%s := (some %s)", n, t.expr(u.X, pre))) // &v for an optional value
 				} else {
 					fields = append(fields, fmt.Sprintf("%s := %s", n, t.expr(kv.Value, pre)))
 				}
@@ -532,6 +619,11 @@ func (t *itr) expr(e ast.Expr, pre *[]string) string {
 		base := t.expr(x.X, pre)
 		hi := t.asInt(x.High, pre)
 		v := t.tmp("s")
+		if t.reslice[t.curFn] {
+			// s[:hi] may reach into the hidden capacity: what lies there is an unknown (`staleF`)
+			*pre = append(*pre, fmt.Sprintf("let %s ← GoSlice.reslice %s %s staleF", v, base, hi))
+			return v
+		}
 		*pre = append(*pre, fmt.Sprintf("let %s ← GoSlice.prefix %s %s", v, base, hi))
 		return v
 	}
@@ -630,7 +722,17 @@ func (t *itr) call(x *ast.CallExpr, pre *[]string, wantValue bool) string {
 		if pf, ok := t.pureFn[id.Name]; ok {
 			args := []string{}
 			for _, a := range x.Args {
-				args = append(args, t.asInt(a, pre))
+				if nid, ok := a.(*ast.Ident); ok && nid.Name == "nil" {
+					args = append(args, "none")
+				} else if u, ok := a.(*ast.UnaryExpr); ok && u.Op == token.AND {
+					args = append(args, "(some "+t.expr(u.X, pre)+")")
+				} else if b, ok := t.typeOf(a).Underlying().(*types.Basic); ok && b.Info()&types.IsBoolean != 0 {
+					args = append(args, t.expr(a, pre))
+				} else if isInt(t.typeOf(a)) {
+					args = append(args, t.asInt(a, pre))
+				} else {
+					args = append(args, t.expr(a, pre))
+				}
 			}
 			return fmt.Sprintf("(%s %s)", pf, strings.Join(args, " "))
 		}
@@ -675,12 +777,29 @@ func (t *itr) call(x *ast.CallExpr, pre *[]string, wantValue bool) string {
 	named, ok := recvTp.(*types.Named)
 	if ok {
 		if _, isIface := named.Underlying().(*types.Interface); isIface {
+			if ext, ok := t.effIface[sel.Sel.Name]; ok {
+				// a callback into code outside the module: it acts on the hidden state; the world pointer it is
+				// handed is not modelled (what a callback does to the world is outside the translation)
+				if !t.curEff {
+					return t.fail("effectful interface call %s in a function that does not thread the hidden state", sel.Sel.Name)
+				}
+				as := []string{t.expr(sel.X, pre)}
+				for _, a := range x.Args {
+					if _, isW := t.tokenOrSelf(t.typeOf(a)); isW {
+						continue
+					}
+					as = append(as, t.expr(a, pre))
+				}
+				rv := t.tmp("r")
+				*pre = append(*pre, fmt.Sprintf("let (ext, %s) := %s ext %s", rv, ext, strings.Join(as, " ")))
+				return rv
+			}
 			if ext, ok := t.ifaceExt[sel.Sel.Name]; ok {
 				as := []string{t.expr(sel.X, pre)}
 				for _, a := range x.Args {
 					as = append(as, t.expr(a, pre))
 				}
-				return fmt.Sprintf("(%s %s)", ext, strings.Join(as, " "))
+				return t.tokCall(ext, as)
 			}
 			return t.fail("call of interface method %s", sel.Sel.Name)
 		}
@@ -690,6 +809,11 @@ func (t *itr) call(x *ast.CallExpr, pre *[]string, wantValue bool) string {
 	}
 	args := []string{}
 	for _, a := range x.Args {
+		if cl, ok := a.(*ast.CompositeLit); ok && len(cl.Elts) == 0 {
+			if _, isTok := t.tokenOf(t.typeOf(a)); isTok {
+				continue // the zero value of an object outside the module (pagedSlice.Add(archetype{}))
+			}
+		}
 		args = append(args, t.expr(a, pre))
 	}
 	recvVal := t.expr(sel.X, pre)
@@ -711,6 +835,7 @@ func (t *itr) call(x *ast.CallExpr, pre *[]string, wantValue bool) string {
 			return t.fail("effectful call %s.%s in a function that does not thread the hidden state", tn, sel.Sel.Name)
 		}
 		rv := t.tmp("r")
+		t.derefCheck(t.typeOf(sel.X), recvVal, pre)
 		*pre = append(*pre, fmt.Sprintf("let (ext, %s) := %s ext %s", rv, ext, strings.Join(append([]string{recvVal}, args...), " ")))
 		if io := t.effInout[tn+"."+sel.Sel.Name]; len(io) > 0 {
 			// the callee writes through these pointer arguments: the extern returns their new values
@@ -723,6 +848,7 @@ func (t *itr) call(x *ast.CallExpr, pre *[]string, wantValue bool) string {
 		return rv
 	}
 	if ext, ok := t.tokExt[tn+"."+sel.Sel.Name]; ok && t.tokens[tn] {
+		t.derefCheck(t.typeOf(sel.X), recvVal, pre)
 		return t.tokCall(ext, append([]string{recvVal}, args...))
 	}
 	if _, isExt := t.externs[tn+"."+sel.Sel.Name]; isExt {
@@ -738,15 +864,36 @@ func (t *itr) call(x *ast.CallExpr, pre *[]string, wantValue bool) string {
 	}
 	hasRes := fd.Type.Results != nil && len(fd.Type.Results.List) > 0
 	extArgs := ""
-	if t.usesEff[tn+"."+sel.Sel.Name] {
-		return t.fail("call of a function that threads the hidden state: %s", tn+"."+sel.Sel.Name)
+	calleeEff := t.usesEff[tn+"."+sel.Sel.Name]
+	if calleeEff && !t.curEff {
+		return t.fail("call of a function that threads the hidden state from one that does not: %s", tn+"."+sel.Sel.Name)
 	}
 	for _, e := range t.needExt[tn+"."+sel.Sel.Name] {
-		if t.curEff && t.stateful(e) {
+		if t.curEff && !calleeEff && t.stateful(e) {
 			extArgs += " (" + e + " ext)"
 		} else {
 			extArgs += " " + e
 		}
+	}
+	if calleeEff {
+		// the callee threads the hidden state too: hand it over and take it back
+		if len(t.inout[tn+"."+sel.Sel.Name]) > 0 {
+			return t.fail("unsupported: in-out parameters of a state-threading callee %s", tn+"."+sel.Sel.Name)
+		}
+		if _, ok := fd.Recv.List[0].Type.(*ast.StarExpr); !ok {
+			return t.fail("unsupported: value receiver of a state-threading callee %s", tn+"."+sel.Sel.Name)
+		}
+		callE := fmt.Sprintf("%s.%s%s %s %s ext", tn, sel.Sel.Name, extArgs, recvVal, strings.Join(args, " "))
+		nr := t.tmp("o")
+		if hasRes {
+			rv := t.tmp("r")
+			*pre = append(*pre, fmt.Sprintf("let (%s, ext, %s) ← %s", nr, rv, callE))
+			*pre = append(*pre, t.assignPath(sel.X, nr, nil)...)
+			return rv
+		}
+		*pre = append(*pre, fmt.Sprintf("let (%s, ext) ← %s", nr, callE))
+		*pre = append(*pre, t.assignPath(sel.X, nr, nil)...)
+		return "()"
 	}
 	callS := fmt.Sprintf("%s.%s%s %s %s", tn, sel.Sel.Name, extArgs, recvVal, strings.Join(args, " "))
 	ptrRecv := false
@@ -926,6 +1073,70 @@ func terminal(list []ast.Stmt) bool {
 	return false
 }
 
+// joinable: no branch of the if statement returns, panics, continues or declares an alias
+func (t *itr) joinable(x *ast.IfStmt) bool {
+	if x.Init != nil {
+		return false
+	}
+	ok := true
+	ast.Inspect(x, func(n ast.Node) bool {
+		switch s := n.(type) {
+		case *ast.ReturnStmt, *ast.BranchStmt, *ast.ForStmt, *ast.RangeStmt:
+			ok = false
+		case *ast.CallExpr:
+			if id, isId := s.Fun.(*ast.Ident); isId && id.Name == "panic" {
+				ok = false
+			}
+		case *ast.AssignStmt:
+			if s.Tok == token.DEFINE && len(s.Rhs) == 1 {
+				if u, isU := s.Rhs[0].(*ast.UnaryExpr); isU && u.Op == token.AND {
+					ok = false
+				}
+			}
+		}
+		return true
+	})
+	return ok
+}
+
+// assignedOuter: plain variables the if statement assigns that were declared before it
+func (t *itr) assignedOuter(x *ast.IfStmt) []string {
+	declared := map[string]bool{}
+	res := []string{}
+	ast.Inspect(x, func(n ast.Node) bool {
+		switch s := n.(type) {
+		case *ast.AssignStmt:
+			for _, l := range s.Lhs {
+				if id, ok := l.(*ast.Ident); ok && id.Name != "_" {
+					if s.Tok == token.DEFINE {
+						declared[id.Name] = true
+					} else if !declared[id.Name] && id.Name != t.recv {
+						dup := false
+						for _, o := range res {
+							dup = dup || o == id.Name
+						}
+						if !dup {
+							res = append(res, id.Name)
+						}
+					}
+				}
+			}
+		case *ast.DeclStmt:
+			if gd, ok := s.Decl.(*ast.GenDecl); ok {
+				for _, sp := range gd.Specs {
+					if vs, ok := sp.(*ast.ValueSpec); ok {
+						for _, n := range vs.Names {
+							declared[n.Name] = true
+						}
+					}
+				}
+			}
+		}
+		return true
+	})
+	return res
+}
+
 // writesThrough: does the body assign through one of these (pointer) parameters?
 func (t *itr) writesThrough(fd *ast.FuncDecl, names []*ast.Ident) bool {
 	set := map[string]bool{}
@@ -1099,6 +1310,15 @@ func (t *itr) stmts(list []ast.Stmt, ind string) []string {
 		if x.Tok != token.DEFINE && x.Tok != token.ASSIGN {
 			return append(out, ind+t.fail("unsupported assignment operator %s", x.Tok))
 		}
+		if len(x.Lhs) == 1 && len(x.Rhs) == 1 && x.Tok == token.ASSIGN {
+			if u, ok := x.Rhs[0].(*ast.UnaryExpr); ok && u.Op == token.AND && strings.HasPrefix(t.leanType(t.typeOf(x.Lhs[0])), "Option (") {
+				// p = &v for an optional value
+				v := t.expr(u.X, &pre)
+				pre = append(pre, t.assignPath(x.Lhs[0], "(some "+v+")", nil)...)
+				emit(pre)
+				return append(out, t.stmts(rest, ind)...)
+			}
+		}
 		if len(x.Lhs) == 1 && len(x.Rhs) == 1 && x.Tok == token.DEFINE {
 			if u, ok := x.Rhs[0].(*ast.UnaryExpr); ok && u.Op == token.AND {
 				if id, ok := x.Lhs[0].(*ast.Ident); ok {
@@ -1130,6 +1350,25 @@ func (t *itr) stmts(list []ast.Stmt, ind string) []string {
 				emit(pre)
 				return append(out, t.stmts(rest, ind)...)
 			}
+			if ce, ok := x.Rhs[0].(*ast.CallExpr); ok && x.Tok == token.DEFINE {
+				if sel, ok := ce.Fun.(*ast.SelectorExpr); ok {
+					if tn, ok := t.tokenOf(t.typeOf(sel.X)); ok {
+						if _, isPair := t.tokExt[tn+"."+sel.Sel.Name]; isPair && !t.usesEffExt(tn+"."+sel.Sel.Name) {
+							v := t.call(ce, &pre, true)
+							a, b := "_", "_"
+							if id, ok := x.Lhs[0].(*ast.Ident); ok {
+								a = id.Name
+							}
+							if id, ok := x.Lhs[1].(*ast.Ident); ok {
+								b = id.Name
+							}
+							pre = append(pre, fmt.Sprintf("let (%s, %s) := %s", a, b, v))
+							emit(pre)
+							return append(out, t.stmts(rest, ind)...)
+						}
+					}
+				}
+			}
 			if ix, ok := x.Rhs[0].(*ast.IndexExpr); ok && isMapT(t.typeOf(ix.X)) && x.Tok == token.DEFINE {
 				if sel, ok := ix.X.(*ast.SelectorExpr); ok {
 					if tn, ok := t.tokenOf(t.typeOf(sel.X)); ok {
@@ -1139,7 +1378,9 @@ func (t *itr) stmts(list []ast.Stmt, ind string) []string {
 							return append(out, ind+t.fail("map member %s.%s", tn, sel.Sel.Name))
 						}
 						f := t.tmp("f")
-						pre = append(pre, fmt.Sprintf("let %s := %s %s %s", f, ext, t.expr(sel.X, &pre), t.expr(ix.Index, &pre)))
+						rcv := t.expr(sel.X, &pre)
+						t.derefCheck(t.typeOf(sel.X), rcv, &pre)
+						pre = append(pre, fmt.Sprintf("let %s := %s", f, t.tokCall(ext, []string{rcv, t.expr(ix.Index, &pre)})))
 						if id, ok := x.Lhs[0].(*ast.Ident); ok && id.Name != "_" {
 							pre = append(pre, fmt.Sprintf("let %s := (%s).getD default", id.Name, f))
 						}
@@ -1314,6 +1555,57 @@ func (t *itr) stmts(list []ast.Stmt, ind string) []string {
 			x2.Init = nil
 			return append(out, t.stmts(append([]ast.Stmt{x.Init, &x2}, rest...), ind)...)
 		}
+		if t.joinIf[t.curFn] && t.joinable(x) {
+			// neither branch leaves the function: the branches hand the variables they may change back, and the
+			// statements after the `if` follow once (instead of once per branch)
+			pre := []string{}
+			cond := t.expr(x.Cond, &pre)
+			emit(pre)
+			vars := []string{}
+			if t.recv != "" {
+				vars = append(vars, t.recv)
+			}
+			vars = append(vars, t.retExtra...)
+			for _, v := range t.loopExtra {
+				dup := false
+				for _, o := range vars {
+					dup = dup || o == v
+				}
+				if !dup {
+					vars = append(vars, v)
+				}
+			}
+			for _, v := range t.assignedOuter(x) {
+				dup := false
+				for _, o := range vars {
+					dup = dup || o == v
+				}
+				if !dup {
+					vars = append(vars, v)
+				}
+			}
+			tuple := strings.Join(vars, ", ")
+			if len(vars) > 1 {
+				tuple = "(" + tuple + ")"
+			}
+			savedLoopVar := t.loopVar
+			t.loopVar = tuple
+			out = append(out, fmt.Sprintf("%slet %s ← (do", ind, tuple))
+			out = append(out, ind+"    if "+cond+" then")
+			out = append(out, t.stmts(x.Body.List, ind+"      ")...)
+			out = append(out, ind+"    else")
+			switch e := x.Else.(type) {
+			case nil:
+				out = append(out, ind+"      pure "+tuple)
+			case *ast.BlockStmt:
+				out = append(out, t.stmts(e.List, ind+"      ")...)
+			case *ast.IfStmt:
+				out = append(out, t.stmts([]ast.Stmt{e}, ind+"      ")...)
+			}
+			out = append(out, ind+"  )")
+			t.loopVar = savedLoopVar
+			return append(out, t.stmts(rest, ind)...)
+		}
 		pre := []string{}
 		cond := t.expr(x.Cond, &pre)
 		emit(pre)
@@ -1471,8 +1763,11 @@ func (t *itr) countLoop(x *ast.ForStmt, rest []ast.Stmt, ind string) ([]string, 
 	if !ok || !ok2b || cj.Name != jv.Name || pj.Name != jv.Name || cond.Op != token.LSS || post.Tok != token.INC {
 		return nil, false
 	}
-	if b, ok := t.typeOf(jv).Underlying().(*types.Basic); !ok || b.Kind() != types.Int32 {
+	unsignedCtr := false
+	if b, ok := t.typeOf(jv).Underlying().(*types.Basic); !ok || (b.Kind() != types.Int32 && b.Kind() != types.Uint32) {
 		return nil, false
+	} else if b.Kind() == types.Uint32 {
+		unsignedCtr = true
 	}
 	// the counter must not be used after the loop
 	used := false
@@ -1534,7 +1829,11 @@ func (t *itr) countLoop(x *ast.ForStmt, rest []ast.Stmt, ind string) ([]string, 
 	}
 	st := t.stateTuple()
 	jN := jv.Name + "N"
-	out = append(out, fmt.Sprintf("%slet %s ← (List.range ((%s).toInt.toNat)).foldlM (fun %s %s => do", ind, st, nv, st, jN))
+	bound := "toInt.toNat"
+	if unsignedCtr {
+		bound = "toNat"
+	}
+	out = append(out, fmt.Sprintf("%slet %s ← (List.range ((%s).%s)).foldlM (fun %s %s => do", ind, st, nv, bound, st, jN))
 	bi := ind + "    "
 	out = append(out, fmt.Sprintf("%slet %s : BitVec 32 := BitVec.ofNat 32 %s", bi, jv.Name, jN))
 	savedLoopVar := t.loopVar
@@ -1603,7 +1902,14 @@ func (t *itr) emitStruct(sb *strings.Builder, name string) {
 			}
 		}
 		fmt.Fprintf(sb, "  %s : %s\n", f.Name(), t.leanType(f.Type()))
+		if t.structs[f.Name()] && f.Name() != name {
+			if t.shadow == nil {
+				t.shadow = map[string]bool{}
+			}
+			t.shadow[f.Name()] = true
+		}
 	}
+	t.shadow = nil
 	fmt.Fprintf(sb, "deriving Repr, Inhabited, DecidableEq\n\n")
 }
 
@@ -1620,6 +1926,7 @@ func (t *itr) emitFunc(sb *strings.Builder, goName string) {
 	t.retExtra = nil
 	extraT := []string{}
 	t.curEff = t.usesEff[goName]
+	t.curFn = goName
 	params := []string{}
 	addTP := func(tp *types.TypeParamList) {
 		for i := 0; tp != nil && i < tp.Len(); i++ {
@@ -1750,18 +2057,43 @@ func genPools(repo string, tiny bool) (string, []string) {
 	t.effExt = map[string]string{"archetype.Alloc": "archAllocF", "archNode.Reset": "nodeResetF"}
 	t.effInout = map[string][]int{"archNode.Reset": {0}}
 	t.aliasCall = map[string]string{"World.Cache": "filterCache"}
-	t.usesEff = map[string]bool{"World.LoadEntities": true, "World.Reset": true}
-	t.pureFn = map[string]string{"capacity": "ArcheGen.Arith.capacity"}
+	t.usesEff = map[string]bool{"World.LoadEntities": true, "World.Reset": true, "World.createEntity": true, "World.createEntities": true,
+		"World.removeArchetype": true, "World.cleanupArchetype": true, "World.cleanupArchetypes": true, "World.RemoveEntity": true,
+		"World.createArchetype": true, "World.setRelation": true}
+	t.reslice = map[string]bool{"World.createEntities": true}
+	t.ptrOption = true
+	t.joinIf = map[string]bool{"World.RemoveEntity": true, "World.createEntities": true, "World.createArchetype": true, "World.setRelation": true}
+	t.tokens["archetypeData"] = true
+	for k, v := range map[string]string{"archetype.SetPointer": "archSetPointerF", "archNode.CreateArchetype": "nodeCreateArchetypeF",
+		"pagedSlice.Add": "pagedAddF", "archetype.Init": "archInitF", "archNode.SetArchetype": "nodeSetArchetypeF"} {
+		t.effExt[k] = v
+	}
+	t.effIface = map[string]string{"Notify": "notifyF"}
+	t.structs["EntityEvent"] = true
+	t.effExt["archetype.Remove"] = "archRemoveF"
+	t.nilChecks = map[string]bool{}
+	for _, f := range []string{"World.createArchetype", "World.setRelation", "World.RemoveEntity", "World.removeArchetype", "World.cleanupArchetype", "World.cleanupArchetypes", "World.createEntity", "World.createEntities", "World.Has", "World.HasUnchecked", "World.Mask",
+		"World.relationError", "World.checkRelation", "World.getRelation", "World.getRelationUnchecked"} {
+		t.nilChecks[f] = true
+	}
+	t.effExt["archetype.AllocN"] = "archAllocNF"
+	t.effExt["archetype.SetEntity"] = "archSetEntityF"
+	t.effExt["archNode.RemoveArchetype"] = "nodeRemoveArchetypeF"
+	t.pureFn = map[string]string{"capacity": "ArcheGen.Arith.capacity", "subscription": mns + ".subscription", "subscribes": mns + ".subscribes",
+		"capacityNonZero": "ArcheGen.Arith.capacityNonZero"}
 	for _, n := range []string{"EntityDump", "entityIndex", "Config"} {
 		t.structs[n] = true
 	}
-	t.view = map[string][]string{"World": {"nodePointers", "filterCache", "locks", "entityPool", "resources", "entities", "targetEntities", "archetypes", "nodes", "config"},
+	t.view = map[string][]string{"World": {"nodePointers", "filterCache", "locks", "entityPool", "resources", "entities", "targetEntities", "archetypes", "nodes", "relationNodes", "listener", "archetypeData", "registry", "config"},
 		"Config": {"CapacityIncrement", "RelationCapacityIncrement"}}
 	t.structs["World"] = true
 	t.tokExt = map[string]string{"archetype.Mask": "archMaskF", "archetype.RelationTarget": "archTargetF", "archetype.HasRelation": "archHasRelationF"}
-	t.ifaceExt = map[string]string{"Matches": "matchesF", "Len": "archsLenF", "Get": "archsGetF"}
+	t.ifaceExt = map[string]string{"Matches": "matchesF", "Len": "archsLenF", "Get": "archsGetF", "Subscriptions": "lstSubsF", "Components": "lstCompsF"}
 	for k, v := range map[string]string{"archNode.IsActive": "nodeActiveF", "archNode.Matches": "nodeMatchesF", "archNode.HasRelation": "nodeHasRelationF",
-		"archNode.archetypeMap": "nodeArchMapF", "archNode.Archetypes": "nodeArchetypesF", "archetype.IsActive": "archActiveF", "pagedSlice.Get": "pagedGetF", "pagedSlice.Len": "pagedLenF"} {
+		"archNode.archetypeMap": "nodeArchMapF", "archNode.Archetypes": "nodeArchetypesF", "archetype.IsActive": "archActiveF", "pagedSlice.Get": "pagedGetF", "pagedSlice.Len": "pagedLenF",
+		"archetype.Len": "archLenF", "archetype.HasComponent": "archHasComponentF", "archetype.node": "archNodeF", "archNode.Relation": "nodeRelationF",
+		"archetype.HasRelationComponent": "archHasRelCompF", "archetype.RelationComponent": "archRelCompF", "archNode.Ids": "nodeIdsF", "archetype.GetEntity": "archGetEntityF",
+		"archNode.GetArchetype": "nodeGetArchetypeF", "archetype.Get": "archGetF"} {
 		t.tokExt[k] = v
 	}
 	for k, v := range map[string][2]string{
@@ -1771,7 +2103,25 @@ func genPools(repo string, tiny bool) (string, []string) {
 		"archsLenF": {"iface.Len", "GoAny → BitVec 32"}, "archsGetF": {"iface.Get", "GoAny → BitVec 32 → Option Nat"},
 		"asCachedFilterF": {"assert.CachedFilterValue", "GoAny → Option CachedFilter"},
 		"pagedGetF":       {"tok.pagedGet", "Nat → BitVec 32 → Option Nat"}, "pagedLenF": {"tok.pagedLen", "Nat → BitVec 32"},
-		"nodeResetF": {"eff.nodeReset", "Ext → Option Nat → Cache → Ext × Cache"},
+		"nodeResetF":           {"eff.nodeReset", "Ext → Option Nat → Cache → Ext × Cache"},
+		"archAllocNF":          {"eff.archAllocN", "Ext → Option Nat → BitVec 32 → Ext × Unit"},
+		"archSetEntityF":       {"eff.archSetEntity", "Ext → Option Nat → BitVec 32 → Entity → Ext × Unit"},
+		"staleF":               {"stale.entityIndex", "Nat → entityIndex"},
+		"archSetPointerF":      {"eff.archSetPointer", "Ext → Option Nat → BitVec 32 → BitVec 8 → GoAny → Ext × Unit"},
+		"nodeCreateArchetypeF": {"eff.nodeCreateArchetype", "Ext → Option Nat → Int → Entity → Ext × Option Nat"},
+		"pagedAddF":            {"eff.pagedAdd", "Ext → Nat → Ext × Unit"},
+		"archInitF":            {"eff.archInit", "Ext → Option Nat → Option Nat → Option Nat → BitVec 32 → Bool → Int → Entity → Ext × Unit"},
+		"nodeSetArchetypeF":    {"eff.nodeSetArchetype", "Ext → Option Nat → Option Nat → Ext × Unit"},
+		"nodeGetArchetypeF":    {"tok.nodeGetArchetype", "Option Nat → Entity → Option Nat × Bool"},
+		"archGetF":             {"tok.archGet", "Option Nat → BitVec 32 → BitVec 8 → GoAny"},
+		"archRemoveF":          {"eff.archRemove", "Ext → Option Nat → BitVec 32 → Ext × Bool"},
+		"notifyF":              {"eff.notify", "Ext → GoAny → EntityEvent → Ext × Unit"},
+		"archHasRelCompF":      {"tok.archHasRelComp", "Option Nat → Bool"}, "archRelCompF": {"tok.archRelComp", "Option Nat → BitVec 8"},
+		"nodeIdsF": {"tok.nodeIds", "Option Nat → GoSlice (BitVec 8)"}, "archGetEntityF": {"tok.archGetEntity", "Option Nat → BitVec 32 → Entity"},
+		"lstSubsF": {"tok.lstSubs", "GoAny → BitVec 8"}, "lstCompsF": {"tok.lstComps", "GoAny → Option (" + mns + ".Mask)"},
+		"nodeRemoveArchetypeF": {"eff.nodeRemoveArchetype", "Ext → Option Nat → Option Nat → Ext × Unit"},
+		"archLenF":             {"tok.archLen", "Option Nat → BitVec 32"}, "archHasComponentF": {"tok.archHasComponent", "Option Nat → BitVec 8 → Bool"},
+		"archNodeF": {"tok.archNode", "Option Nat → Option Nat"}, "nodeRelationF": {"tok.nodeRelation", "Option Nat → BitVec 8"},
 		"archAllocF": {"eff.archAlloc", "Ext → Option Nat → Entity → Ext × BitVec 32"}} {
 		t.extOwner[k] = v[0]
 		t.externs[v[0]] = v[1]
@@ -1799,7 +2149,7 @@ func genPools(repo string, tiny bool) (string, []string) {
 			fmt.Fprintf(&sb, "def MaskTotalBits : Nat := %s\n\n", k.Val().ExactString())
 		}
 	}
-	for _, s := range []string{"Entity", "entityPool", "bitPool", "lockMask", "componentRegistry", "Resources", "bitSet", "idMap", "intPool", "pointers", "CachedFilter", "cacheEntry", "Cache", "Config", "entityIndex", "EntityDump", "World"} {
+	for _, s := range []string{"Entity", "entityPool", "bitPool", "lockMask", "componentRegistry", "Resources", "bitSet", "idMap", "intPool", "pointers", "CachedFilter", "cacheEntry", "Cache", "Config", "entityIndex", "EntityDump", "EntityEvent", "World"} {
 		t.emitStruct(&sb, s)
 	}
 	funcs := []string{
@@ -1816,6 +2166,10 @@ func genPools(repo string, tiny bool) (string, []string) {
 		"componentRegistry.ComponentID", "componentRegistry.unregisterLastComponent",
 		"Cache.Register", "Cache.Unregister", "Cache.get", "Cache.mapArchetypes", "Cache.addArchetype", "Cache.removeArchetype",
 		"World.getArchetypes", "World.IsLocked", "World.lock", "World.unlock", "World.checkLocked", "World.Alive", "World.LoadEntities", "World.Reset",
+		"World.createEntity", "World.createEntities", "World.Has", "World.HasUnchecked", "World.Mask",
+		"World.relationError", "World.checkRelation", "World.getRelation", "World.getRelationUnchecked",
+		"Entity.IsZero", "World.removeArchetype", "World.cleanupArchetype", "World.cleanupArchetypes", "World.RemoveEntity",
+		"World.createArchetype", "World.setRelation",
 	}
 	// which functions need the uninterpreted-function parameters (directly or through a callee)
 	calls := map[string][]string{}
